@@ -20,6 +20,24 @@ CLAIMS = {
    design_ref="DESIGN.md §4 C03",
    note="Trusted: Coq kernel incl. vm_compute; harness/c03.py format tokenizer (pyparsing not modelled) and live-object dumper; crysp.bits exercised through the implementation.",
    technique="Coq proofs over a buildspec/decode model + per-run kernel re-check of all live specs + independent-interpreter differential testing"),
+ "C05": dict(
+   category="proof",
+   text="Coq theorems over a Gallina model of disassembler.__call__/ispec.decode (Amoco.Dec.Disasm, abstract setup functions): the returned bytes are a non-empty prefix of the input for every tree, setup behaviour and prefix depth; for fixed-length instruction sets the outcome depends only on the maxlen fetch window (hence not on what follows). Hypotheses on the live tables (tree_ok, spec size >= 8) are regenerated and kernel-checked per run; the skeleton is tied to the code by trace-driven correspondence (recorded ispec.decode results drive the model). Partial: locality of variable-length setup functions and prefix-freeness of mixed-length tables are tested hypotheses (d(b), d(b[:n]), d(b[:n]+t), d(b[:maxlen]) plus a deterministic sweep of all prefix-ambiguous spec pairs); known reader defects are listed in known_findings.json.",
+   design_ref="DESIGN.md §4 C05",
+   note="Trusted: Coq kernel; Dec model; harness/decmodel.py decode wrapper; generators. Not modelled: bodies of setup functions.",
+   technique="Coq proof over call-skeleton model + regenerated table obligations + trace-driven correspondence + prefix/tail oracle"),
+ "C11": dict(
+   category="proof",
+   text="Coq theorems over the call-skeleton model: the pending-prefix slot is empty after every call whatever the setup functions do (accept/reject/raise), hence the outcome of a call is identical after any call history (memoryless), and returned bytes come from the current input only; a refutation witness shows the originally pinned code (no reset on raise) violates this - that defect was confirmed on the real code, repaired by a fix: commit and recorded as fixed. Tie: trace-driven correspondence incl. the pending-slot state after each call; search oracle: outcomes after random call histories (valid/invalid/truncated/prefix-only/raising/prefix+raising) vs outcomes from the cleared state; corpus of the minimised historical failures runs first.",
+   design_ref="DESIGN.md §4 C11",
+   note="Trusted: Coq kernel; Dec model; harness/decmodel.py and c11.py. 'Fresh' = cleared pending slot on the same object; other global state probed by evaluating the pool in two orders.",
+   technique="Coq invariant proof over call-skeleton model + history differential testing"),
+ "C17": dict(
+   category="proof",
+   text="Coq theorem: the dispatch skeleton (tree walk, leaf scan, prefix recursion, pending slot) is total - it returns an instruction or none, never raises and never loops - provided setup functions only accept or reject, and what it returns is well formed (built by a table spec whose fixed bits match, positive length, bytes = input prefix). Partial by nature: the hypothesis about ~4700 hand-written setup/format/semantics functions cannot be carried by a Gallina model; it is enumerated per run over every live specification (boundary and pseudo-random field values) through decode, well-formedness, str/toks, every Formatter, pickle round-trip and semantics; every crash site is a keyed known finding (isa|stage|function|exception), anything unlisted is a violation.",
+   design_ref="DESIGN.md §4 C17",
+   note="Trusted: Coq kernel; Dec model; enumeration harness. The enumeration is testing, not proof.",
+   technique="Coq totality proof of dispatch skeleton + exhaustive per-spec enumeration of hook totality with keyed known findings"),
 }
 NOT_YET = {}
 def main():
